@@ -133,6 +133,12 @@ class YieldCounter:
                         env.facts.add_ge(u, lo1)
                     return u
                 return s_
+            if nm in ("nlargest", "nsmallest") and len(e.args) >= 2:
+                k_ = evaluate(env, e.args[0])
+                s_ = self.size_of(st, e.args[1])
+                if isinstance(k_, Lin) and isinstance(s_, Lin) and entails_ge0(env.facts, k_):
+                    return self.amin(env, k_, s_)
+                return Opaque("nlargest bounds")
             if nm == "range" and len(e.args) == 1:
                 v = evaluate(env, e.args[0])
                 return v if isinstance(v, Lin) and entails_ge0(env.facts, v) else Opaque("range bound not provably >= 0")
